@@ -12,3 +12,10 @@ def predicate(fid):
         PREDICATES[fid] = fn
         return fn
     return deco
+
+
+@predicate("D18")
+def d18(cls, w):
+    """C19: distinct (stream id, module, test) results whose CF-safe column names coincide."""
+    return cls in ("C19:result-column-values", "C19:result-column-missing", "C19:result-column-ambiguous") and bool(
+        w.get("colliding_results"))
